@@ -31,7 +31,7 @@ def make_case(i, rng, tier):
             inp["label"], o.problem or o.unspecified, common.show_diff(o.items, inp["items"], "items")))
     main = common.stray_cc(rng, common.spec("main", inp, strict=True))
     tasks, sched = common.perturb(rng, [main], roots=True)
-    return {"input": {"root": inp["root"], "cc": inp["cc"], "enc": inp["enc"], "label": inp["label"],
+    return {"input": {"root": inp["root"], "cc": inp["cc"], "enc": inp["enc"], "label": inp["label"], "optimized": rng.random() < 0.004,
                       "arms": sorted(set("%s.%s" % a for a in inp["arms"]))[:40]},
             "tasks": tasks, "schedule": sched}
 
@@ -87,6 +87,16 @@ def check(case):
                     label, it[2], it[1], it[3], got, want))
                 break
         res.count("text-forms-compared", n_text)
+    if case["input"].get("optimized") and len(data) < 3000:
+        # the same decode in an interpreter started with -O (asserts stripped): the events must be the same ones
+        import json
+        from .. import pristine
+        fr = pristine.run_fresh([dict(s, source="bytes")], optimize=True)[0]
+        want = json.loads(json.dumps([exp, ["ok"]], default=str))
+        res.count("decoded-under-python-O")
+        if fr != want:
+            res.v("C01.g", "C01.g:python-O", "%s: decoded by an interpreter started with -O: %s; outcome %s" % (
+                label, common.show_diff(fr[0], want[0]), fr[1]))
     res.nontrivial(s["type"], s.get("cc"), s.get("enc"), s["data"])
     return res
 
